@@ -151,26 +151,29 @@ def check_jsonl(c, st):
     for item in c['items']:
         if item[0] == 'obj':
             objs.append(item[1])
-            lines.append(json.dumps(item[1]) + ' ' * item[2])
+            lines.append(json.dumps(item[1], ensure_ascii=False) + ' ' * item[2])
         elif item[0] == 'blank':
             lines.append(' ' * item[1])
+        elif item[0] == 'corrupt-bytes':
+            lines.append('\udcff\udcfe{"cut": "\udce6\udc97')      # undecodable bytes (written via surrogateescape)
         else:
             lines.append(item[1])
     if c.get('align'):
         # pad with one more object so that the file is an exact multiple of the 4096-byte block
-        base = len((c['eol'].join(lines + ['']) + (c['eol'] if c['trailing'] else '')).encode('utf-8'))
+        base = len((c['eol'].join(lines + ['']) + (c['eol'] if c['trailing'] else '')).encode('utf-8', 'surrogateescape'))
         need = (-(base + 9)) % 4096
         pad = {'p': 'x' * need}
         objs.append(pad)
         lines.append(json.dumps(pad))
     text = c['eol'].join(lines) + (c['eol'] if c['trailing'] else '')
     path = os.path.join(tmpdir(), 'j%d' % os.getpid())
-    with open(path, 'w', encoding='utf-8', newline='') as f:
+    with open(path, 'w', encoding='utf-8', newline='', errors='surrogateescape') as f:
         f.write(text)
     ignore = c['ignore_errors']
+    binary_only = any(i[0] == 'corrupt-bytes' for i in c['items'])
     st.monitor_evals += 1
     res = {}
-    for mode in ('r', 'rb'):
+    for mode in (('rb',) if binary_only else ('r', 'rb')):
         for rev in (False, True):
             kw = {'encoding': 'utf-8'} if mode == 'r' else {}
             fo = open(path, mode, **kw)
@@ -191,7 +194,7 @@ def check_jsonl(c, st):
         st.see(('jsonl', len(text), repr(c['items'])[:300]))
     st.count('jsonl_cases')
     st.peak('max_jsonl_bytes', len(text))
-    if len(text.encode('utf-8')) % 4096 == 0 and text:
+    if len(text.encode('utf-8', 'surrogateescape')) % 4096 == 0 and text:
         st.count('jsonl_files_exact_multiple_of_block')
     return None
 
@@ -217,6 +220,9 @@ def gen(r):
         nl = r.choice(['\n', '\n', '\r\n'])
         style = r.choice(['lines', 'lines', 'one', 'one-nl', 'leading-blank', 'blank-runs', 'empty', 'only-newlines'])
         words = ['a', 'bc', 'é', '日本', 'x' * 5, '', '😀', 'line', '0']
+        if r.random() < 0.3:
+            # characters that str.splitlines treats as breaks but that are ordinary line CONTENT here
+            words += ['a\u2028b', '\u2029', 'x\x0by', 'q\x0cr', '\x85', 'm\x1cn', '\x1e']
         if style == 'empty':
             content = ''
         elif style == 'one':
@@ -244,7 +250,7 @@ def gen(r):
     while size <= target:
         k = r.random()
         if k < 0.7:
-            obj = r.choice([{'i': len(items)}, [1, 2, 3], 'str é', 5, None, {'k': 'v' * r.randint(0, 60)}, {'n': {'m': [len(items)]}}])
+            obj = r.choice([{'i': len(items)}, [1, 2, 3], 'str é', 5, None, {'ls': 'a\u2028b\u2029c\x85'}, {'k': 'v' * r.randint(0, 60)}, {'n': {'m': [len(items)]}}])
             pad = r.choice([0, 0, 0, 1, 3])
             items.append(['obj', obj, pad])
             size += len(json.dumps(obj)) + pad + 1
@@ -252,8 +258,12 @@ def gen(r):
             items.append(['blank', r.choice([0, 0, 2])])
             size += 1
         elif ignore:
-            items.append(['corrupt', r.choice(['{bad json', 'nope', '{"a": ', '[1, 2'])])
-            size += 8
+            if r.random() < 0.25:
+                items.append(['corrupt-bytes'])     # a record cut in the middle of a multi-byte character
+                size += 14
+            else:
+                items.append(['corrupt', r.choice(['{bad json', 'nope', '{"a": ', '[1, 2', '{"s": "\u2028'])])
+                size += 8
         if target == 0:
             break
     return {'kind': 'jsonl', 'items': items, 'eol': r.choice(['\n', '\n', '\r\n']), 'trailing': r.random() < 0.7,
